@@ -985,12 +985,17 @@ Definition td_tail (s3 : st) (k : task) (g : gid) (t : tid) : st :=
       | Some (FCanc _) =>
           if is_cancel e then s4 else
           let s5 := upd_group s4 g (fun x => gr_excs (g_excs x ++ [(t, e)]) x) in
-          if eff_cancelled s5 (g_scope (groups s5 g)) then s5 else scope_cancel s5 (g_scope (groups s5 g)) false
+          (* F23: a failed child calls cancel() on the group's own scope; cancel() is a no-op when it has been
+             called before, so the test `if not cancel_called` of the source is folded into scope_cancel *)
+          scope_cancel s5 (g_scope (groups s5 g)) false
       | Some FPend =>
           match sf with Some f => fut_complete s4 f (FExc e) | None => s4 end
       | _ =>
-          let s5 := if is_cancel e then s4 else upd_group s4 g (fun x => gr_excs (g_excs x ++ [(t, e)]) x) in
-          if eff_cancelled s5 (g_scope (groups s5 g)) then s5 else scope_cancel s5 (g_scope (groups s5 g)) false
+          if is_cancel e then
+            if eff_cancelled s4 (g_scope (groups s4 g)) then s4 else scope_cancel s4 (g_scope (groups s4 g)) false
+          else
+            let s5 := upd_group s4 g (fun x => gr_excs (g_excs x ++ [(t, e)]) x) in
+            scope_cancel s5 (g_scope (groups s5 g)) false
       end
   | None =>
       match sf, sf_state with
@@ -999,13 +1004,28 @@ Definition td_tail (s3 : st) (k : task) (g : gid) (t : tid) : st :=
       end
   end.
 
+Lemma scope_cancel_idem s c b : (if s_cancelled (scopes s c) then s else scope_cancel s c b) = scope_cancel s c b.
+Proof. unfold scope_cancel. destruct (s_cancelled (scopes s c)); reflexivity. Qed.
+
 Lemma run_task_done_eq s0 t :
   run_task_done s0 t =
   match k_group (tasks s0 t) with
   | None => set_running s0 None
   | Some g => td_tail (td_struct (set_running s0 None) t g) (tasks s0 t) g t
   end.
-Proof. unfold run_task_done. cbn [tasks set_running]. destruct (k_group (tasks s0 t)); reflexivity. Qed.
+Proof.
+  unfold run_task_done. cbn [tasks set_running]. destruct (k_group (tasks s0 t)) as [g|]; [|reflexivity].
+  unfold td_tail, td_struct. cbn zeta. cbn [tasks set_running].
+  destruct (k_done (tasks s0 t)) as [[v|e|e]|]; try reflexivity.
+  - destruct (k_startfut (tasks s0 t)) as [f|].
+    + match goal with |- context [f_st (futs ?a f)] => destruct (f_st (futs a f)) end; try reflexivity;
+        destruct (is_cancel e); try reflexivity; apply scope_cancel_idem.
+    + destruct (is_cancel e); try reflexivity; apply scope_cancel_idem.
+  - destruct (k_startfut (tasks s0 t)) as [f|].
+    + match goal with |- context [f_st (futs ?a f)] => destruct (f_st (futs a f)) end; try reflexivity;
+        destruct (is_cancel e); try reflexivity; apply scope_cancel_idem.
+    + destruct (is_cancel e); try reflexivity; apply scope_cancel_idem.
+Qed.
 
 Lemma treq_td_tail s3 k g t : treq s3 (td_tail s3 k g t).
 Proof.
@@ -1022,6 +1042,7 @@ Proof.
   assert (Kc : forall a, treq a (if eff_cancelled a (g_scope (groups a g)) then a
                                  else scope_cancel a (g_scope (groups a g)) false)).
   { intros a. destruct (eff_cancelled a _); [apply treq_refl|apply treq_scope_cancel]. }
+  assert (Kc2 : forall a, treq a (scope_cancel a (g_scope (groups a g)) false)) by (intros a; apply treq_scope_cancel).
   eapply treq_trans; [exact K4|].
   destruct (k_done k) as [[v|e|e]|].
   - destruct (k_startfut k) as [f|]; [|apply treq_refl].
@@ -1029,17 +1050,17 @@ Proof.
   - destruct (k_startfut k) as [f|].
     + destruct (f_st (futs s4 f)).
       * apply treq_fut_complete.
-      * destruct (is_cancel e); [apply Kc|]. eapply treq_trans; [apply Kx|apply Kc].
-      * destruct (is_cancel e); [apply Kc|]. eapply treq_trans; [apply Kx|apply Kc].
-      * destruct (is_cancel e); [apply treq_refl|]. eapply treq_trans; [apply Kx|apply Kc].
-    + destruct (is_cancel e); [apply Kc|]. eapply treq_trans; [apply Kx|apply Kc].
+      * destruct (is_cancel e); [apply Kc|]. eapply treq_trans; [apply Kx|apply Kc2].
+      * destruct (is_cancel e); [apply Kc|]. eapply treq_trans; [apply Kx|apply Kc2].
+      * destruct (is_cancel e); [apply treq_refl|]. eapply treq_trans; [apply Kx|apply Kc2].
+    + destruct (is_cancel e); [apply Kc|]. eapply treq_trans; [apply Kx|apply Kc2].
   - destruct (k_startfut k) as [f|].
     + destruct (f_st (futs s4 f)).
       * apply treq_fut_complete.
-      * destruct (is_cancel e); [apply Kc|]. eapply treq_trans; [apply Kx|apply Kc].
-      * destruct (is_cancel e); [apply Kc|]. eapply treq_trans; [apply Kx|apply Kc].
-      * destruct (is_cancel e); [apply treq_refl|]. eapply treq_trans; [apply Kx|apply Kc].
-    + destruct (is_cancel e); [apply Kc|]. eapply treq_trans; [apply Kx|apply Kc].
+      * destruct (is_cancel e); [apply Kc|]. eapply treq_trans; [apply Kx|apply Kc2].
+      * destruct (is_cancel e); [apply Kc|]. eapply treq_trans; [apply Kx|apply Kc2].
+      * destruct (is_cancel e); [apply treq_refl|]. eapply treq_trans; [apply Kx|apply Kc2].
+    + destruct (is_cancel e); [apply Kc|]. eapply treq_trans; [apply Kx|apply Kc2].
   - destruct (k_startfut k) as [f|]; [|apply treq_refl].
     destruct (f_st (futs s4 f)); try apply treq_refl. apply treq_fut_complete.
 Qed.
